@@ -88,7 +88,8 @@ Definition next_range (tl blen offset pos : N) : N * N :=
 
 (* ---------- client state ---------- *)
 Record cstate := mkst {
-  tracts : list runs;     (* tractserver contents of tract 0,1,...; its length is the curator's NumTracts *)
+  tracts : N -> runs;     (* mem tractserver: data[TractID] of tract 0,1,... (nil where nothing was created) *)
+  ntr : N;                (* mem curator: len(bi.tracts) = NumTracts *)
   cache_on : bool;        (* !cli.cacheDisabled *)
   cache : list N;         (* tract indices present in the tract cache for this blob *)
   pos : Z;                (* Blob.offset *)
@@ -98,18 +99,18 @@ Record cstate := mkst {
 }.
 
 Definition init_state (c : bool) : cstate :=
-  mkst [] c [] 0%Z [] E_OK 0.
+  mkst (fun _ => []) 0 c [] 0%Z [] E_OK 0.
 
-Definition set_tracts (st : cstate) (ts : list runs) : cstate :=
-  mkst ts (cache_on st) (cache st) (pos st) (rbuf st) (rerr st) (rpcs st).
+Definition set_tracts (st : cstate) (ts : N -> runs) (n : N) : cstate :=
+  mkst ts n (cache_on st) (cache st) (pos st) (rbuf st) (rerr st) (rpcs st).
 Definition set_pos (st : cstate) (p : Z) : cstate :=
-  mkst (tracts st) (cache_on st) (cache st) p (rbuf st) (rerr st) (rpcs st).
+  mkst (tracts st) (ntr st) (cache_on st) (cache st) p (rbuf st) (rerr st) (rpcs st).
 Definition set_buf (st : cstate) (b : runs) (e : N) : cstate :=
-  mkst (tracts st) (cache_on st) (cache st) (pos st) b e (rpcs st).
+  mkst (tracts st) (ntr st) (cache_on st) (cache st) (pos st) b e (rpcs st).
 Definition set_cache_on (st : cstate) (c : bool) : cstate :=
-  mkst (tracts st) c (cache st) (pos st) (rbuf st) (rerr st) (rpcs st).
+  mkst (tracts st) (ntr st) c (cache st) (pos st) (rbuf st) (rerr st) (rpcs st).
 
-Definition ntracts (st : cstate) : N := N.of_nat (length (tracts st)).
+Definition upd (T : N -> runs) (j : N) (t : runs) : N -> runs := fun q => if q =? j then t else T q.
 
 Definition memN (x : N) (l : list N) : bool := existsb (N.eqb x) l.
 Definition range (start cnt : N) : list N :=
@@ -121,22 +122,20 @@ Definition get_tracts (st : cstate) (start end_ : N) : (N * N) * cstate :=
   if cache_on st && forallb (fun i => memN i (cache st)) (range start (end_ - start))
   then ((start, end_ - start), st)
   else
-    let n := ntracts st in
+    let n := ntr st in
     let s := N.min start n in
     let e := N.min end_ n in
     let c' := if cache_on st then cache st ++ range s (e - s) else cache st in
-    ((s, e - s), mkst (tracts st) (cache_on st) c' (pos st) (rbuf st) (rerr st) (rpcs st + 1)).
-
-Definition sub_tracts (ts : list runs) (first cnt : N) : list runs :=
-  firstn (N.to_nat cnt) (skipn (N.to_nat first) ts).
+    ((s, e - s), mkst (tracts st) (ntr st) (cache_on st) c' (pos st) (rbuf st) (rerr st) (rpcs st + 1)).
 
 (* ---------- readAt ---------- *)
-Fixpoint read_tracts (tl : N) (ts : list runs) (k offset pos : N) : list ((N * N * N) * runs) :=
-  match ts with
-  | [] => []
-  | t :: r =>
+(* one goroutine per returned tract j, j+1, ...: getNextRange, then readOneTract *)
+Fixpoint read_tracts (tl : N) (cnt : nat) (j : N) (T : N -> runs) (k offset pos : N) : list ((N * N * N) * runs) :=
+  match cnt with
+  | O => []
+  | S c =>
       let '(toff, tlen) := next_range tl k offset pos in
-      read_one t toff tlen :: read_tracts tl r k offset (pos + tlen)
+      read_one (T j) toff tlen :: read_tracts tl c (j + 1) T k offset (pos + tlen)
   end.
 
 (* the loop "Figure out how much succeeded" *)
@@ -165,21 +164,27 @@ Definition read_at (v : variant) (tl : N) (st : cstate) (off : Z) (k : N) : (N *
     else
       let padAll := cnt =? end_ + 1 - start in
       let cnt' := if padAll then cnt - 1 else cnt in
-      let rs := read_tracts tl (sub_tracts (tracts st1) first cnt') k o 0 in
+      let rs := read_tracts tl (N.to_nat cnt') first (tracts st1) k o 0 in
       let '(n, e) := fold_results padAll (map fst rs) 0 E_OK in
       let e' := if fix16 v && (e =? E_OK) && (n <? k) then E_EOF else e in
       ((n, e', rtake n (concat (map snd rs))), st1).
 
 (* ---------- writeAt ---------- *)
 (* one goroutine per tract: Write (existing tract) or Create (new tract = empty data, then Write) *)
-Fixpoint write_tracts (tl : N) (ts : list runs) (b : runs) (offset pos : N) : list runs * N :=
-  match ts with
-  | [] => ([], pos)
-  | t :: r =>
+Fixpoint write_tracts (tl : N) (cnt : nat) (j : N) (T : N -> runs) (b : runs) (offset pos : N) : (N -> runs) * N :=
+  match cnt with
+  | O => (T, pos)
+  | S c =>
       let '(toff, tlen) := next_range tl (rlen b) offset pos in
       let thisB := rtake tlen (rdrop pos b) in
-      let '(r', p') := write_tracts tl r b offset (pos + tlen) in
-      (ts_write t toff thisB :: r', p')
+      write_tracts tl c (j + 1) (upd T j (ts_write (T j) toff thisB)) b offset (pos + tlen)
+  end.
+
+(* createEmptyTracts: Create(tract, nil, 0) for each hole tract *)
+Fixpoint create_empty (cnt : nat) (j : N) (T : N -> runs) : N -> runs :=
+  match cnt with
+  | O => T
+  | S c => create_empty c (j + 1) (upd T j (ts_write (T j) 0 []))
   end.
 
 Definition write_at (tl : N) (st : cstate) (off : Z) (b : runs) : (N * N) * cstate :=
@@ -189,30 +194,29 @@ Definition write_at (tl : N) (st : cstate) (off : Z) (b : runs) : (N * N) * csta
     let o := Z.to_N off in
     let start := o / tl in
     let end_ := (o + rlen b + tl - 1) / tl in
-    let n := ntracts st in
+    let n := ntr st in
     (* writeExistingTracts on [start, min end n) *)
     let '(st1, writePos, start1, b1, o1) :=
       if start <? n then
         let e := N.min end_ n in
         let '(_, st') := get_tracts st start e in
-        let '(new, wp) := write_tracts tl (sub_tracts (tracts st') start (e - start)) b o 0 in
-        (set_tracts st' (firstn (N.to_nat start) (tracts st') ++ new ++ skipn (N.to_nat e) (tracts st')),
-         wp, n, rdrop wp b, o + wp)
+        let '(T1, wp) := write_tracts tl (N.to_nat (e - start)) start (tracts st') b o 0 in
+        (set_tracts st' T1 n, wp, n, rdrop wp b, o + wp)
       else (st, 0, start, b, o) in
     if n <? end_ then
-      (* createEmptyTracts [n, start1) then createWriteTracts [start1, end) *)
-      let holes := repeat ([] : runs) (N.to_nat (start1 - n)) in
-      let '(new, cp) := write_tracts tl (repeat ([] : runs) (N.to_nat (end_ - start1))) b1 o1 0 in
-      ((writePos + cp, E_OK), set_tracts st1 (tracts st1 ++ holes ++ new))
+      (* createEmptyTracts [n, start1) then createWriteTracts [start1, end) (ExtendBlob + AckExtendBlob) *)
+      let Th := create_empty (N.to_nat (start1 - n)) n (tracts st1) in
+      let '(T2, cp) := write_tracts tl (N.to_nat (end_ - start1)) start1 Th b1 o1 0 in
+      ((writePos + cp, E_OK), set_tracts st1 T2 end_)
     else ((writePos, E_OK), st1).
 
 (* ---------- byteLength ---------- *)
 Definition byte_length (tl : N) (st : cstate) : N * cstate :=
-  let n := ntracts st in
+  let n := ntr st in
   if n =? 0 then (0, st)
   else
     let '(_, st1) := get_tracts st (n - 1) n in
-    ((n - 1) * tl + rlen (nth (N.to_nat (n - 1)) (tracts st1) []), st1).
+    ((n - 1) * tl + rlen (tracts st1 (n - 1)), st1).
 
 (* ---------- blob.go: Blob ---------- *)
 Definition blob_read (v : variant) (tl : N) (st : cstate) (k : N) : (N * N * runs) * cstate :=
@@ -302,7 +306,7 @@ Definition step (v : variant) (tl : N) (st : cstate) (o : op) : res * cstate :=
   | OCache on => mk (set_cache_on st on) 0%Z E_OK []
   | OReopen =>
       (* openOnce: an uncached curators.GetTracts(0,0) (one RPC); tractCache.put of no tracts *)
-      mk (mkst (tracts st) (cache_on st) (cache st) 0%Z [] E_OK (rpcs st + 1)) 0%Z E_OK []
+      mk (mkst (tracts st) (ntr st) (cache_on st) (cache st) 0%Z [] E_OK (rpcs st + 1)) 0%Z E_OK []
   | ORaNew => mk (set_buf st [] E_OK) 0%Z E_OK []
   end.
 
